@@ -34,7 +34,10 @@ RespTimeout == 5000
 
 H0 == [ urgent |-> FALSE, family |-> "", done |-> FALSE,
         cmd |-> <<>>, tg |-> <<>>, rq |-> <<>>, svc |-> <<>>,
-        inst |-> <<>>, oldlb |-> {}, rlb |-> <<>>, pauseSeq |-> 0 ]
+        inst |-> <<>>, oldlb |-> {}, rlb |-> <<>>, pauseSeq |-> 0,
+        mem |-> <<>>,        \* C12: configurations observed in memory, in order: <<seq, cfg>>
+        running |-> {},      \* commands called and not yet returned
+        since |-> 0 ]        \* seq of the oldest memory observation a snapshot written now may still legitimately show
 
 \* mess:  commands that change the target groups (deploy kinds, remove) overlapped on this service
 \* messP: pause-type commands overlapped each other (or a remove): the pause state is no longer definite
@@ -194,10 +197,18 @@ UpdClaim(h, e) ==
        IN [h EXCEPT !.rq[e.r].claimSeq = e.seq, !.rq[e.r].stale = verStale \/ lbStale,
                     !.rq[e.r].gateclaim = r.gateSeq # 0 /\ r.gateSeq < h.pauseSeq]
 
+\* C12 bookkeeping
+UpdMem(h, e) == [h EXCEPT !.mem = Append(@, <<e.seq, e.cfg>>)]
+LastMemSeq(h) == IF Len(h.mem) = 0 THEN 0 ELSE h.mem[Len(h.mem)][1]
+UpdRunning(h, e) ==
+  IF e.ev = "cmd_call" THEN [h EXCEPT !.running = @ \cup {e.c}, !.since = IF h.running = {} THEN LastMemSeq(h) ELSE @]
+  ELSE [h EXCEPT !.running = @ \ {e.c}]
+
 Upd(h, e) ==
   CASE e.ev = "reset"          -> UpdReset(e)
-    [] e.ev = "cmd_call"       -> UpdCmdCall(h, e)
-    [] e.ev = "cmd_ret"        -> UpdCmdRet(h, e)
+    [] e.ev = "mem_obs"        -> UpdMem(h, e)
+    [] e.ev = "cmd_call"       -> UpdRunning(UpdCmdCall(h, e), e)
+    [] e.ev = "cmd_ret"        -> UpdRunning(UpdCmdRet(h, e), e)
     [] e.ev = "tg_probe"       -> UpdProbe(h, e)
     [] e.ev = "tg_probe_reply" -> UpdProbeReply(h, e)
     [] e.ev = "cli_send"       -> UpdCliSend(h, e)
@@ -320,10 +331,12 @@ ChkCmdRet(h, g, e) ==
          {V("C17_a", e.c, "", <<"command should not wait", c.callT, e.t>>)})
    \cup If(h.urgent /\ ~c.ovl /\ c.res = "ok" /\ (dk \/ c.kind \in DrainKinds) /\ e.t > bound,
          {V("C17_b", e.c, "", <<"returned later than its condition was met", bound, e.t>>)})
-   \cup (LET s2 == g.svc[c.svc]
-              clash == {x \in DOMAIN g.svc : x # c.svc /\ g.svc[x].live /\ g.svc[x].binds \cap s2.binds # {}}
-          IN If(c.res = "ok" /\ c.kind \in DeployKinds /\ s2.live /\ clash # {},
-                {V("C05_a", e.c, "", <<"after this command", c.svc, "and", clash, "own the same host and path", s2.binds>>)}))
+   \cup (LET \* services whose bindings are settled: live, and no command that may move or remove them is in progress
+              settled == {x \in DOMAIN g.svc : g.svc[x].live
+                                              /\ ~\E k \in g.svc[x].pending : g.cmd[k].kind \in (DeployKinds \cup {"remove"})}
+              clash == {<<x, y>> \in settled \X settled : x # y /\ g.svc[x].binds \cap g.svc[y].binds # {}}
+          IN If(c.kind \in (DeployKinds \cup {"remove"}) /\ clash # {},
+                {V("C05_a", e.c, "", <<"two services own the same host and path", clash>>)}))
    \cup If(e.res \notin {"ok", "unhealthy", "host_in_use", "not_found", "invalid_target", "cert", "error_pages",
                          "acme_wildcard", "rollout_not_set"},
          {V("C18_panic", e.c, "", <<"command ended abnormally", e.res>>)})
@@ -480,6 +493,24 @@ ChkEnd(h, e) ==
    \cup If(h.urgent, {V("C03_c", r, Sig(h.rq[r]), <<"upgraded connection not closed when draining began">>) : r \in survivors})
    \cup If(h.urgent, {V("C09_a", u, "", <<"live target no longer probed; last probe", h.tg[u].probeT>>) : u \in live})
 
+(***************************************************************************)
+(* C12: the state file.  file_obs = what a proxy started at this instant   *)
+(* would read (at every step boundary of every snapshot write and at every *)
+(* command return).                                                        *)
+(***************************************************************************)
+ChkFile(h, e) ==
+  LET allowed == {h.mem[i][2] : i \in {j \in 1..Len(h.mem) : h.mem[j][1] >= h.since}}
+      current == IF Len(h.mem) = 0 THEN "[]" ELSE h.mem[Len(h.mem)][2]
+      quiet == h.running = {}      \* (the returning command has already been removed: Chk sees the updated history)
+  IN  \* C12_a: at any instant the file is one complete snapshot: decodable, and equal to a configuration that was in
+      \*        force at some moment since the oldest command still in progress began
+      If(~e.ok, {V("C12_a", e.c, "", <<"state file not decodable at", e.point>>)})
+   \cup If(e.ok /\ Len(h.mem) > 0 /\ e.cfg \notin allowed,
+           {V("C12_a", e.c, "", <<"state file at", e.point, "is not a configuration in force since the command began">>)})
+      \* C12_b: once every command has returned the file describes the configuration then in force
+   \cup If(e.ok /\ e.point = "returned" /\ quiet /\ e.cfg # current,
+           {V("C12_b", e.c, "", <<"all commands returned but the state file does not describe the current configuration">>)})
+
 Chk(h, g, e) ==
   CASE e.ev = "tg_beg"    -> ChkTgBeg(h, e)
     [] e.ev = "tg_end"    -> ChkTgEnd(h, e)
@@ -488,6 +519,7 @@ Chk(h, g, e) ==
     [] e.ev = "tg_probe"  -> ChkProbe(h, e)
     [] e.ev = "end"       -> ChkEnd(h, e)
     [] e.ev = "panic"     -> {V("C18_panic", e.c, "", <<"panic", e.what>>)}
+    [] e.ev = "file_obs"  -> ChkFile(g, e)
     [] e.ev = "harness_error" -> {V("HARNESS", "", "", e.what)}
     [] OTHER -> {}
 (***************************************************************************)
@@ -524,6 +556,7 @@ Exercised(h, g, e) ==
          \cup If(PausePre(h, r, e.seq) /\ ~r.hc /\ r.pAtSend = "running" /\ PauseCalls(h, r, e.seq) # {}, {"C07_f"})
     [] e.ev = "tg_probe" /\ Has(h.tg, e.tg) ->
          If(h.urgent /\ h.tg[e.tg].retSeq = 0 /\ h.tg[e.tg].probeT >= 0, {"C09_a"})
+    [] e.ev = "file_obs" -> {"C12_a"} \cup If(e.point = "returned" /\ g.running = {}, {"C12_b"})
     [] e.ev = "end" ->
          If(\E u \in DOMAIN h.tg : h.tg[u].retSeq # 0 /\ e.t > h.tg[u].retT + h.cmd[h.tg[u].grp].hcI, {"C17_c"})
          \cup If(\E u \in DOMAIN h.tg : h.tg[u].retWhy = "failed" /\ e.t > h.tg[u].retT + h.cmd[h.tg[u].grp].hcI, {"C06_b"})
